@@ -62,6 +62,7 @@ def verify_lemma(name):
         except Exception as exc:  # noqa: BLE001
             recs.append({"name": ob.name, "kind": ob.kind, "function": name, "status": "undecided", "backend": "solver-error", "ms": 0.0, "note": str(exc)})
     desc["callee_contracts_used"] = sorted(eng.used_contracts)
+    desc["rules_used"] = sorted(eng.rules_used)
     desc["seconds"] = round(time.time() - t0, 2)
     return name, desc, recs
 
@@ -110,6 +111,8 @@ def verify_function(qualname):
                 rec = {"name": ob.name, "kind": ob.kind, "function": qualname, "status": "undecided", "backend": "solver-error", "ms": 0.0, "note": str(exc)}
             recs.append(rec)
         desc.setdefault("callee_contracts_used", sorted(eng.used_contracts))
+        desc["rules_used"] = sorted(set(desc.get("rules_used", [])) | set(eng.rules_used))
+        desc["inlined"] = sorted(set(desc.get("inlined", [])) | set(eng.inlined))
         # vacuity guard: a function whose precondition is contradictory has NO feasible return path.
         # Individual infeasible paths (mutually exclusive branch combinations) are normal.
         covers = [r for r in recs if r["kind"] == "cover" and r["name"].startswith(qualname.split("@")[0] + tag + ":")]
